@@ -2711,7 +2711,8 @@ class FnTranslator:
                 bt0 = ("unknown",)
             self.n = n0
             if bt0[0] in ("struct", "opaque") and "%s.%s" % (bt0[1], m) in self.u.externals:
-                return self.call_external("%s.%s" % (bt0[1], m), [recv] + list(args), env, pre)
+                if len(self.u.externals["%s.%s" % (bt0[1], m)]["params"]) == len(args) + 1:   # receiver listed in `params`
+                    return self.call_external("%s.%s" % (bt0[1], m), [recv] + list(args), env, pre)
         base, bt = self.expr(recv, env, pre, None)
         k = bt[0]
         if m == "lock" and not args and k not in ("opaque", "iter", "viter", "lockres"):
